@@ -154,3 +154,5 @@ Definition guard_world (g : guard) : option N :=
 
 (* observable state of a cell through trial borrows: 0 free, 1 shared-held, 2 unique-held *)
 Definition cell_code (c : cell) : N := if cl_w c then 2 else if N.eqb (cl_r c) 0 then 0 else 1.
+(* the raw flag word of AtomicBorrow: reader count, plus 2^63 when uniquely borrowed *)
+Definition cell_raw (c : cell) : N := cl_r c + (if cl_w c then 9223372036854775808 else 0).
